@@ -79,6 +79,8 @@ def build(run):
     run.kani(crate_g, [lemma_g], timeout=600)
     crate_f, lemma_f = bookmark_lemma(run)
     run.kani(crate_f, [lemma_f], timeout=600)
+    crate_h, lemma_h = ann_lemma(run)
+    run.kani(crate_h, [lemma_h], timeout=600)
 
     # ---- K-C09-c: the navigation position never becomes the illegal sentinel id (shared with C11: one rule application) ---------------
     from checks import C11
@@ -312,6 +314,92 @@ def bookmark_lemma(run):
     return crate, dict(id="K-C09-f.bookmark_name_is_the_raw_id", harness="bookmark_name_is_the_raw_id", api=lambda v, o: api_bookmark(),
                        role=lambda v, o: "bookmark-id-translated", covers=["one-letter id reachable", "generated id reachable"],
                        claim="the mark written for a node is <mark name='ID'/> with ID exactly the node's id attribute")
+
+
+
+# ======================================================================================================================
+# K-C09-h: set_annotation_attrs (the <semantics> arm keeps annotations as data-* attributes of the presentation child) never
+#          touches the author's id of that child
+ANN_SHIM = r"""
+use core::marker::PhantomData;
+/// format! replaced by its literal format string (attribute names are `data-...` + arguments; the arguments are evaluated, not rendered)
+pub struct Fmt(&'static str);
+impl Fmt { fn as_str(&self) -> &'static str { self.0 } }
+#[allow(forgetting_copy_types, forgetting_references)]
+fn forget_arg<T>(t: T) { core::mem::forget(t) }
+macro_rules! format { ($f:literal $(, $a:expr)*) => {{ $( forget_arg($a); )* Fmt($f) }}; }
+#[derive(Clone, Copy, PartialEq, Debug)] pub struct Element<'a> { id: u8, p: PhantomData<&'a ()> }
+#[derive(Clone, Copy)] pub struct ChildOfElement<'a>(Element<'a>);
+#[derive(Clone, Copy)] pub struct Attribute { n: &'static str, v: &'static str }
+impl Attribute { pub fn name(&self) -> &'static str { self.n } pub fn value(&self) -> &'static str { self.v } }
+fn el<'a>(id: u8) -> Element<'a> { Element { id, p: PhantomData } }
+/// semantics = element 0 with children 1 (presentation), 2 (annotation), 3 (annotation-xml); which of its attributes exist is symbolic
+static mut SEM_HAS_ID: bool = false;
+static mut SEM_HAS_INTENT: bool = false;
+static mut ENC: [bool; 4] = [false; 4];
+static mut NKIDS: usize = 0;
+static mut PRES_ID_WRITTEN: bool = false;
+static mut NON_DATA_WRITTEN: bool = false;
+static mut DATA_WRITTEN: usize = 0;
+pub struct Kids<'a> { i: usize, p: PhantomData<&'a ()> }
+impl<'a> Iterator for Kids<'a> { type Item = ChildOfElement<'a>; fn next(&mut self) -> Option<ChildOfElement<'a>> { if self.i < unsafe { NKIDS } { self.i += 1; Some(ChildOfElement(el(self.i as u8))) } else { None } } }
+pub struct Attrs { i: usize }
+impl Iterator for Attrs { type Item = Attribute; fn next(&mut self) -> Option<Attribute> {
+    loop { let i = self.i; self.i += 1;
+        if i == 0 { if unsafe { SEM_HAS_ID } { return Some(Attribute { n: "id", v: "s" }); } }
+        else if i == 1 { if unsafe { SEM_HAS_INTENT } { return Some(Attribute { n: "intent", v: "f" }); } }
+        else { return None; } } } }
+impl<'a> Element<'a> {
+    pub fn children(&self) -> Kids<'a> { Kids { i: 0, p: PhantomData } }
+    pub fn attributes(&self) -> Attrs { Attrs { i: if self.id == 0 { 0 } else { 2 } } }
+    pub fn attribute_value(&self, nm: &str) -> Option<&'static str> {
+        if nm.len() == 8 { if unsafe { ENC[self.id as usize] } { Some("application/x-tex") } else { None } }        // "encoding"
+        else if nm.len() == 2 && self.id == 0 && unsafe { SEM_HAS_ID } { Some("s") } else { None }
+    }
+    pub fn set_attribute_value(&self, nm: &str, _v: &str) {
+        if self.id != 1 { return; }
+        let b = nm.as_bytes();
+        let data = b.len() > 5 && b[0] == b'd' && b[1] == b'a' && b[2] == b't' && b[3] == b'a' && b[4] == b'-';
+        unsafe { if b.len() == 2 && b[0] == b'i' && b[1] == b'd' { PRES_ID_WRITTEN = true; } if data { DATA_WRITTEN += 1; } else { NON_DATA_WRITTEN = true; } }
+    }
+}
+fn as_element<'a>(c: ChildOfElement<'a>) -> Element<'a> { c.0 }
+fn name<'a>(e: &Element<'a>) -> &'static str { match e.id { 0 => "semantics", 1 => "mi", 2 => "annotation", _ => "annotation-xml" } }
+fn as_text<'a>(_e: Element<'a>) -> &'static str { "y" }
+fn mml_to_string<'a>(_e: &Element<'a>) -> String { String::from("m") }
+"""
+
+ANN_HARNESS = r"""
+HARNESS(annotations_never_overwrite_the_author_id, 17, [str::replace => replace_stub]) {
+    unsafe { SEM_HAS_ID = sym::bool(); SEM_HAS_INTENT = sym::bool(); ENC[2] = sym::bool(); ENC[3] = sym::bool(); NKIDS = 1 + sym::below(3); }
+    set_annotation_attrs(el(1), el(0));
+    cover!(unsafe { SEM_HAS_ID && NKIDS == 3 }, "semantics with its own id and two annotations reachable");
+    cover!(unsafe { DATA_WRITTEN == 2 }, "two annotations kept as data attributes reachable");
+    assert!(!unsafe { PRES_ID_WRITTEN }, "the id of the presentation child is overwritten while the annotations are attached: the author's id moves to another element");
+    assert!(!unsafe { NON_DATA_WRITTEN }, "an attribute that is not a data-* attribute is written onto the presentation child");
+}
+#[cfg(kani)]
+fn replace_stub<P: core::str::pattern::Pattern>(_s: &str, _from: P, _to: &str) -> String { String::from("e") }      // the rendered encoding name is not the subject
+"""
+
+
+def api_ann(vals=None, out=None):
+    res = mcprobe([("mathml", "<math><semantics id='s'><mi id='z'>z</mi><annotation encoding='application/x-tex'>z</annotation></semantics></math>")])
+    bad = res[0][0] != "OK" or "<mi id='z'" not in res[0][1].replace('"', "'")
+    return bad, {"script": "set_mathml(<semantics id='s'> around <mi id='z'>): the returned MathML must still have <mi id='z'>", "result": res[0]}
+
+
+def ann_lemma(run):
+    c = slicer.Source.get("src/canonicalize.rs")
+    f = c.find("fn clean_mathml", "fn set_annotation_attrs")
+    run.uses(f)
+    crate = kani_run.Crate("c09ann", ANN_SHIM + f.text + ANN_HARNESS)
+    run.bound("K-C09-h", "set_annotation_attrs verbatim; <semantics> with or without its own id / intent attribute, 0..2 annotation children each with or without an encoding attribute")
+    run.assume("K-C09-h: sxd_document elements reduced to (kind, which attributes exist); format! replaced by its literal format string (arguments evaluated, not rendered); str::replace / mml_to_string return an empty string")
+    return crate, dict(id="K-C09-h.annotations_keep_author_id", harness="annotations_never_overwrite_the_author_id", api=lambda v, o: api_ann(),
+                       role=lambda v, o: "presentation-id-overwritten" if "id of the presentation child" in o else "non-data-attribute-written",
+                       covers=["semantics with its own id and two annotations reachable", "two annotations kept as data attributes reachable"],
+                       claim="set_annotation_attrs writes only data-* attributes onto the presentation child; its id attribute is never written")
 
 
 # ======================================================================================================================
